@@ -38,8 +38,10 @@ RULE = (
 )
 
 
-def classify(prop="C07"):
-    return vlib.classify_for(prop)
+def classify():
+    # every verdict of ISCCTrace.tla is a C07 predicate, whichever wrapper
+    # (C07, or the stand-alone C07I) runs this module
+    return vlib.classify_for("C07")
 
 
 def _run_and_validate(ctx, binary, test, label, cfg, env, timeout_drv=1200, timeout_tlc=1800):
@@ -48,7 +50,7 @@ def _run_and_validate(ctx, binary, test, label, cfg, env, timeout_drv=1200, time
     if rc != 0:
         raise vlib.Infra("iscc driver %s failed:\n%s" % (test, o[-3000:]))
     trace = os.path.join(out, "trace.ndjson")
-    fails = vlib.validate_traces(ctx, trace, TRACE, cfg, DEPS, label, classify=classify(ctx.prop),
+    fails = vlib.validate_traces(ctx, trace, TRACE, cfg, DEPS, label, classify=classify(),
                                  timeout=timeout_tlc, max_failures=4)
     ctx.cov["samples"] += vlib.sample_lines(trace, 3, 300)
     meta = os.path.join(out, "meta.json")
@@ -57,12 +59,12 @@ def _run_and_validate(ctx, binary, test, label, cfg, env, timeout_drv=1200, time
 
 def _generate_schedules(ctx):
     """Spec -> code direction for the store: schedules from TLC."""
-    wd = ctx.sub("gen")
+    wd = ctx.sub("iscc_gen")
     cfgs = ["MC_ISCC_store_ascoded.cfg", "Sim_ISCC_store.cfg"]
     if not ctx.quick():
         cfgs.append("MC_ISCC_store_ascoded2.cfg")
     vlib.copy_specs(wd, [SPEC, GEN] + cfgs)
-    sched = ctx.sub("sched")
+    sched = ctx.sub("iscc_sched")
     info = {"counterexamples": [], "simulated": 0}
     # 1. counterexamples of the "as coded" variant of the model (version rule
     #    currentVersion = writtenVersion + 1, no write guard): TLC is expected
@@ -121,7 +123,7 @@ def run_parts(ctx):
     # --- part 2: the real analyzers
     if only in ("", "analyzer", "traces"):
         n = 120 if ctx.quick() else 1200
-        _, meta = _run_and_validate(ctx, binary, "TestAnalyzerRandom", "analyzer", CFG_AN,
+        _, meta = _run_and_validate(ctx, binary, "TestAnalyzerRandom", "iscc_analyzer", CFG_AN,
                                     {"VERIF_N": n, "VERIF_EPISODES": 12}, timeout_tlc=3000)
         extra["analyzer"] = meta
     if only == "analyzer":
@@ -129,14 +131,14 @@ def run_parts(ctx):
 
     # --- part 3: the real store, schedules generated by TLC
     sched, info = _generate_schedules(ctx)
-    _, meta = _run_and_validate(ctx, binary, "TestStoreReplay", "store_tlc", CFG_STORE,
+    _, meta = _run_and_validate(ctx, binary, "TestStoreReplay", "iscc_store_tlc", CFG_STORE,
                                 {"VERIF_SCHED_DIR": sched})
     info.update(meta)
     extra["store_tlc_schedules"] = info
 
     # --- part 3: the real store, seeded random schedules
     n = 100 if ctx.quick() else 700
-    _run_and_validate(ctx, binary, "TestStoreRandom", "store_random", CFG_STORE,
+    _run_and_validate(ctx, binary, "TestStoreRandom", "iscc_store_random", CFG_STORE,
                       {"VERIF_N": n, "VERIF_STEPS": 40}, timeout_tlc=3000)
     extra["store_random"] = {"schedules": n, "steps": 40}
     return {"rule": RULE, "extra": extra}
@@ -156,7 +158,7 @@ def replay_parts(ctx, path):
         if '"part":"an"' in ln or '"ev":"an_' in ln:
             part = "an"
     cfg = CFG_AN if part == "an" else CFG_STORE
-    vlib.validate_traces(ctx, path, TRACE, cfg, DEPS, "replay", classify=classify(ctx.prop))
+    vlib.validate_traces(ctx, path, TRACE, cfg, DEPS, "iscc_replay", classify=classify())
 
 
 def handles(path):
